@@ -1,18 +1,28 @@
 (* SharedFmla — xlsx shared formulas (property C15).  Definitions only: model, spec, known
    classes.  Proofs are in SharedFmla_proofs.v.
 
-   Modelled Rust functions (current /repo tree):
-     src/xlsx/mod.rs           replace_cell_names, offset_cell_name
-                               (coordinate_to_name, column_number_to_name, get_row_column,
-                                get_dimension are modelled in Col26.v, written by agent c14)
-     src/xlsx/cells_reader.rs  next_formula: the shared-formula part (offset map from the `ref`
-                               attribute, the `formulas` vector, the lookup for member cells)
+   Modelled Rust functions (current /repo tree, after the fix: commits 7595189 0817afa 2d75670):
+     src/xlsx/mod.rs           replace_cell_names, offset_cell_name, is_formula_word_char
+                               (column_number_to_name, get_row_column, get_dimension are modelled
+                                in Col26.v, written by agent c14)
+     src/lib.rs                Dimensions::contains
+     src/xlsx/cells_reader.rs  next_formula: the shared-formula part (the `formulas` map keyed by
+                               si, a group = master text + declared ref + master position, the
+                               lookup for member cells with the offset computed at lookup time)
      src/xlsx/mod.rs           worksheet_formula: the filter on empty strings (Range::from_sparse is
                                Range.v)
-   A formula text (Rust `&str`) is a [list N] of Unicode scalar values; the output buffer of
-   replace_cell_names (`Vec<u8>`) is a [list N] of bytes.  The harness is built with overflow
-   checks, so u32 / i64 arithmetic that overflows is [Panic] (a release build wraps instead; see
-   notes/C15.md). *)
+   A formula text (Rust `&str` / `Vec<char>` / `String`) is a [list N] of Unicode scalar values,
+   on input and on output.
+
+   char::is_alphanumeric is Unicode-aware (Alphabetic or Numeric, tables of the Rust standard
+   library).  It is NOT modelled: it is the Section variable [is_alnum], an oracle about which
+   the proofs assume only its values on ASCII ([ascii_alnum], hypothesis of the theorems).  The
+   OCaml driver instantiates it, per case, with the ASCII definition plus the list of non-ASCII
+   alphanumeric scalars that the Python driver obtained from the Rust harness
+   (`sharedfmla alnum`, i.e. from char::is_alphanumeric itself).
+
+   The harness is built with overflow checks, so i64 arithmetic that overflows is [Panic]
+   (a release build wraps instead). *)
 From Calamine Require Import Prelude Col26.
 Open Scope N_scope.
 Set Implicit Arguments.
@@ -26,124 +36,271 @@ Definition ch_dot : N := 46.
 Definition ch_E : N := 69.
 Definition ch_plus : N := 43.
 Definition ch_minus : N := 45.
+Definition ch_lbrack : N := 91.     (* '[' *)
+Definition ch_rbrack : N := 93.     (* ']' *)
+Definition ch_uscore : N := 95.     (* '_' *)
+Definition ch_bslash : N := 92.     (* '\' *)
+Definition ch_qmark : N := 63.      (* '?' *)
 
-(* char::is_ascii_alphabetic / is_ascii_digit *)
+(* char::is_ascii_alphabetic / to_ascii_uppercase; is_digit (= is_ascii_digit) is in Col26 *)
 Definition is_alpha (c : N) : bool := is_upper c || is_lower c.
-Definition is_alnum (c : N) : bool := is_alpha c || is_digit c.
-(* `c as u8` on a char: truncation of the scalar value to its low 8 bits *)
-Definition u8 (c : N) : N := c mod 256.
+Definition ascii_alnum (c : N) : bool := is_alpha c || is_digit c.
+Definition to_upper (c : N) : N := if is_lower c then c - 32 else c.
+Definition is_nil (l : list N) : bool := match l with [] => true | _ => false end.
+Definition nonempty (l : list N) : bool := negb (is_nil l).
 
-(* ------------------------------------------------------------------ String::from_utf8 validity *)
-(* The validation of core::str::from_utf8: well-formed UTF-8 only (no overlong forms, no
-   surrogates, nothing above U+10FFFF). *)
-Definition inr (lo hi x : N) : bool := (lo <=? x) && (x <=? hi).
-Definition cont (x : N) : bool := inr 128 191 x.
-Fixpoint utf8_valid_fuel (fuel : nat) (l : list N) : bool :=
-  match fuel with
-  | O => match l with [] => true | _ => false end
-  | S f =>
-    match l with
-    | [] => true
-    | b0 :: t =>
-      if b0 <? 128 then utf8_valid_fuel f t
-      else if inr 194 223 b0 then
-        match t with b1 :: t' => cont b1 && utf8_valid_fuel f t' | _ => false end
-      else if inr 224 239 b0 then
-        match t with
-        | b1 :: b2 :: t' =>
-            (if b0 =? 224 then inr 160 191 b1
-             else if b0 =? 237 then inr 128 159 b1 else cont b1)
-            && cont b2 && utf8_valid_fuel f t'
-        | _ => false
-        end
-      else if inr 240 244 b0 then
-        match t with
-        | b1 :: b2 :: b3 :: t' =>
-            (if b0 =? 240 then inr 144 191 b1
-             else if b0 =? 244 then inr 128 143 b1 else cont b1)
-            && cont b2 && cont b3 && utf8_valid_fuel f t'
-        | _ => false
-        end
-      else false
-    end
+(* the longest prefix whose characters satisfy p, and the rest *)
+Fixpoint span (p : N -> bool) (l : list N) : list N * list N :=
+  match l with
+  | c :: t => if p c then (let ar := span p t in (c :: fst ar, snd ar)) else ([], l)
+  | [] => ([], [])
   end.
-Definition utf8_valid (l : list N) : bool := utf8_valid_fuel (length l) l.
 
-(* ------------------------------------------------------------------ MODEL: offset_cell_name *)
-(*  let cell = get_row_column(name.iter().map(|c| *c as u8).collect())?;
-    coordinate_to_name(((cell.0 as i64 + offset.0) as u32, (cell.1 as i64 + offset.1) as u32)) *)
+(* ------------------------------------------------------------------ i64 *)
 Definition I64MIN : Z := (-9223372036854775808)%Z.
 Definition I64MAX : Z := 9223372036854775807%Z.
 Definition add_i64 (a b : Z) : outcome Z :=          (* i64 + with overflow checks *)
   let s := (a + b)%Z in
   if ((I64MIN <=? s) && (s <=? I64MAX))%Z then Ok s else Panic.
 Definition as_u32 (z : Z) : N := Z.to_N (z mod 4294967296)%Z.   (* `as u32` of an i64 *)
+(* i64::to_string *)
+Definition i64_to_string (z : Z) : list N :=
+  if (z <? 0)%Z then ch_minus :: dec (Z.to_N (- z)) else dec (Z.to_N z).
 
-Definition offset_cell_name (name : list N) (off : Z * Z) : outcome (list N) :=
-  do cell <- get_row_column (map u8 name);
-  (* the tuple is built left to right: row first *)
-  do r <- add_i64 (Z.of_N (fst cell)) (fst off);
-  do c <- add_i64 (Z.of_N (snd cell)) (snd off);
-  coordinate_to_name (as_u32 r, as_u32 c).
+(* ------------------------------------------------------------------ MODEL: offset_cell_name *)
+(*  while i < name.len() && name[i].is_ascii_alphabetic() {
+        if i - letters >= 3 { return None; }
+        col = col * 26 + (name[i].to_ascii_uppercase() as i64 - 'A' as i64 + 1);  i += 1; }
+   [l] is name[i..], [k] is i - letters.  Result: None = `return None`, else (i - letters, col,
+   name[i..]) at loop exit.  At most 3 iterations accumulate, so the i64 arithmetic cannot
+   overflow (col <= 18278). *)
+Fixpoint ocn_letters (l : list N) (k : nat) (col : Z) : option (nat * Z * list N) :=
+  match l with
+  | c :: t =>
+      if is_alpha c then
+        if (3 <=? k)%nat then None
+        else ocn_letters t (S k) (col * 26 + (Z.of_N (to_upper c) - 65 + 1))%Z
+      else Some (k, col, l)
+  | [] => Some (k, col, l)
+  end.
 
-(* `if let Ok(cell_name) = offset_cell_name(..) { res.extend(cell_name) } else
-    { res.extend(cell.iter().map(|c| *c as u8)) }`: an Err is swallowed, a panic is not *)
-Definition flush_cell (cell : list N) (off : Z * Z) : outcome (list N) :=
-  match offset_cell_name cell off with
-  | Ok nm => Ok nm
-  | Err _ => Ok (map u8 cell)
+(*  while i < name.len() && name[i].is_ascii_digit() {
+        if i - digits >= 7 { return None; }
+        row = row * 10 + (name[i] as i64 - '0' as i64);  i += 1; }      (row <= 9999999) *)
+Fixpoint ocn_digits (l : list N) (k : nat) (row : Z) : option (nat * Z * list N) :=
+  match l with
+  | c :: t =>
+      if is_digit c then
+        if (7 <=? k)%nat then None
+        else ocn_digits t (S k) (row * 10 + (Z.of_N c - 48))%Z
+      else Some (k, row, l)
+  | [] => Some (k, row, l)
+  end.
+
+Definition starts_dollar (l : list N) : bool :=
+  match l with c :: _ => c =? ch_dollar | [] => false end.
+
+Definition ZROWS : Z := 1048576%Z.      (* MAX_ROWS as i64 *)
+Definition ZCOLS : Z := 16384%Z.        (* MAX_COLUMNS as i64 *)
+
+(* First half of offset_cell_name, up to `if row >= MAX_ROWS as i64 || col >= MAX_COLUMNS as i64`:
+   the part that does not look at the offset.  Some (col_abs, col, row_abs, row) with the 0-based
+   position, or None where the function returns None.  Index sites: name[i] under i < len;
+   name[digits] is evaluated only when i != digits, i.e. digits < len: none can panic. *)
+Definition ocn_parse (name : list N) : option (bool * Z * bool * Z) :=
+  let col_abs := starts_dollar name in                       (* name.first() == Some(&'$') *)
+  let l0 := if col_abs then tl name else name in
+  match ocn_letters l0 0 0 with
+  | None => None
+  | Some (nl, col, l1) =>
+    if (nl =? 0)%nat then None else                          (* if i == letters *)
+    let row_abs := starts_dollar l1 in                       (* name.get(i) == Some(&'$') *)
+    let l2 := if row_abs then tl l1 else l1 in
+    match ocn_digits l2 0 0 with
+    | None => None
+    | Some (nd, row, l3) =>
+      (* if i == digits || i != name.len() || name[digits] == '0' *)
+      if (nd =? 0)%nat || negb (is_nil l3) || (hd 0 l2 =? ch_0) then None else
+      let row := (row - 1)%Z in let col := (col - 1)%Z in
+      if ((ZROWS <=? row) || (ZCOLS <=? col))%Z then None
+      else Some (col_abs, col, row_abs, row)
+    end
+  end.
+
+(* Second half: apply the offset (row first, then column: the order of the two `let`s), reject a
+   result outside the sheet, render.  `row + offset.0` is i64 arithmetic: Panic on overflow. *)
+Definition in_sheet (row col : Z) : bool :=
+  ((0 <=? row) && (row <? ZROWS) && (0 <=? col) && (col <? ZCOLS))%Z.
+Definition ocn_apply (p : bool * Z * bool * Z) (off : Z * Z) : outcome (option (list N)) :=
+  let '(col_abs, col, row_abs, row) := p in
+  do row' <- (if row_abs then Ok row else add_i64 row (fst off));
+  do col' <- (if col_abs then Ok col else add_i64 col (snd off));
+  if negb (in_sheet row' col') then Ok None else
+  match column_number_to_name (as_u32 col') with          (* .ok()? *)
+  | Ok cs =>
+      Ok (Some ((if col_abs then [ch_dollar] else []) ++ cs ++
+                (if row_abs then [ch_dollar] else []) ++ i64_to_string (row' + 1)))
+  | Err _ => Ok None
   | Panic => Panic
   | OutOfFuel => OutOfFuel
   end.
 
+Definition offset_cell_name (name : list N) (off : Z * Z) : outcome (option (list N)) :=
+  match ocn_parse name with
+  | None => Ok None
+  | Some p => ocn_apply p off
+  end.
+
 (* ------------------------------------------------------------------ MODEL: replace_cell_names *)
-Record rstate := mkR { rs_res : list N; rs_cell : list N; rs_icr : bool; rs_inq : bool }.
-Definition rs_init : rstate := mkR [] [] false false.
-
-(* one iteration of `for c in s.chars()` *)
-Definition rcn_step (off : Z * Z) (st : rstate) (c : N) : outcome rstate :=
-  let inq := if c =? ch_dquote then negb (rs_inq st) else rs_inq st in
-  if inq then Ok (mkR (rs_res st ++ [u8 c]) (rs_cell st) (rs_icr st) inq)
-  else if is_alpha c then
-    if rs_icr st then Ok (mkR (rs_res st ++ map u8 (rs_cell st)) [c] false inq)
-    else Ok (mkR (rs_res st) (rs_cell st ++ [c]) (rs_icr st) inq)
-  else if is_digit c then Ok (mkR (rs_res st) (rs_cell st ++ [c]) true inq)
-  else
-    do f <- flush_cell (rs_cell st) off;
-    Ok (mkR (rs_res st ++ f ++ [u8 c]) [] false inq).
-
-Fixpoint rcn_loop (off : Z * Z) (s : list N) (st : rstate) : outcome rstate :=
-  match s with
-  | [] => Ok st
-  | c :: t => do st' <- rcn_step off st c; rcn_loop off t st'
+(*  res.push(c); i += 1;
+    while i < chars.len() { res.push(chars[i]); i += 1; if chars[i - 1] == c { break; } }
+   [l] is chars[i..] after the opening quote; result (pushed, chars[i..] at exit) *)
+Fixpoint scan_quote (q : N) (l : list N) : list N * list N :=
+  match l with
+  | [] => ([], [])
+  | x :: t => if x =? q then ([x], t) else (let ar := scan_quote q t in (x :: fst ar, snd ar))
   end.
 
-(* the bytes handed to String::from_utf8 *)
-Definition rcn_bytes (s : list N) (off : Z * Z) : outcome (list N) :=
-  do st <- rcn_loop off s rs_init;
-  match rs_cell st with
-  | [] => Ok (rs_res st)
-  | _ => do f <- flush_cell (rs_cell st) off; Ok (rs_res st ++ f)
+(*  let mut depth = 0usize;
+    while i < chars.len() {
+        match chars[i] { '[' => depth += 1, ']' => depth -= 1, _ => () }
+        res.push(chars[i]); i += 1;
+        if depth == 0 { break; } }
+   `depth -= 1` on a usize 0 would panic; `depth += 1` cannot overflow (depth <= length). *)
+Fixpoint scan_bracket (l : list N) (depth : N) : outcome (list N * list N) :=
+  match l with
+  | [] => Ok ([], [])
+  | x :: t =>
+      do d <- (if x =? ch_lbrack then Ok (depth + 1)
+               else if x =? ch_rbrack then (if depth =? 0 then Panic else Ok (depth - 1))
+               else Ok depth);
+      if d =? 0 then Ok ([x], t)
+      else do r <- scan_bracket t d; Ok (x :: fst r, snd r)
   end.
 
-Definition E_UTF8 : N := 10.
-(* result: the UTF-8 bytes of the returned String *)
+Section Model.
+(* char::is_alphanumeric — an oracle, see the header *)
+Variable is_alnum : N -> bool.
+
+(*  c.is_alphanumeric() || matches!(c, '_' | '.' | '$' | '\\' | '?') *)
+Definition is_formula_word_char (c : N) : bool :=
+  is_alnum c || (c =? ch_uscore) || (c =? ch_dot) || (c =? ch_dollar) || (c =? ch_bslash) ||
+  (c =? ch_qmark).
+
+(* one iteration of `while i < chars.len()` with c = chars[i], t = chars[i+1..]:
+   (text pushed on res, chars[i..] after the iteration) *)
+Definition rcn_step (off : Z * Z) (c : N) (t : list N) : outcome (list N * list N) :=
+  if (c =? ch_dquote) || (c =? ch_apos) then
+    let ar := scan_quote c t in Ok (c :: fst ar, snd ar)
+  else if c =? ch_lbrack then scan_bracket (c :: t) 0
+  else if is_formula_word_char c then
+    let wr := span is_formula_word_char (c :: t) in
+    let word := fst wr in
+    (*  match chars.get(i) { Some('(') | Some('!') => None, _ => offset_cell_name(word, offset) } *)
+    do translated <- (match snd wr with
+                      | x :: _ => if (x =? ch_lparen) || (x =? ch_bang) then Ok None
+                                  else offset_cell_name word off
+                      | [] => offset_cell_name word off
+                      end);
+    Ok (match translated with Some name => name | None => word end, snd wr)
+  else Ok ([c], t).
+
+(* the outer loop; one unit of fuel per iteration, every iteration consumes at least one char *)
+Fixpoint rcn_loop (fuel : nat) (off : Z * Z) (l : list N) (res : list N) : outcome (list N) :=
+  match fuel with
+  | O => OutOfFuel
+  | S f =>
+    match l with
+    | [] => Ok res
+    | c :: t => do er <- rcn_step off c t; rcn_loop f off (snd er) (res ++ fst er)
+    end
+  end.
+
+(* fuel: length + 1 always suffices (rcn_fuel_enough in the proofs) *)
 Definition replace_cell_names (s : list N) (off : Z * Z) : outcome (list N) :=
-  do b <- rcn_bytes s off;
-  if utf8_valid b then Ok b else Err E_UTF8.
+  rcn_loop (S (length s)) off s [].
+
+(* ------------------------------------------------------------------ MODEL: next_formula (shared part) *)
+(* Dimensions::contains *)
+Definition contains (d : (N * N) * (N * N)) (p : N * N) : bool :=
+  (fst (fst d) <=? fst p) && (fst p <=? fst (snd d)) &&
+  (snd (fst d) <=? snd p) && (snd p <=? snd (snd d)).
+
+(* HashMap<usize, (String, (Dimensions, (u32, u32)))>: an association list, newest binding
+   first; `insert` = cons, `get` = first match (observationally the same as replacing) *)
+Definition group_entry := (list N * (((N * N) * (N * N)) * (N * N)))%type.
+Definition fmap := list (N * group_entry).
+Fixpoint fm_get (m : fmap) (si : N) : option group_entry :=
+  match m with
+  | [] => None
+  | (k, v) :: t => if k =? si then Some v else fm_get t si
+  end.
+Definition fm_insert (m : fmap) (si : N) (v : group_entry) : fmap := (si, v) :: m.
+
+(* what the <f> element of a cell looks like *)
+Inductive fkind :=
+| FNone                                            (* no <f> *)
+| FPlain (f : list N)                              (* <f>text</f> *)
+| FMaster (si : N) (ref : list N) (f : list N)     (* <f t=shared ref=.. si=..>text</f> *)
+| FMember (si : N) (own : list N)                  (* <f t=shared si=..>own</f>, own usually empty *)
+| FSharedBad.                                      (* t=shared without a numeric si *)
+
+Definition E_SI : N := 11.
+(* one <c> element: (formulas map afterwards, the String reported for the cell) *)
+Definition cell_step (fs : fmap) (pos : N * N) (k : fkind) : outcome (fmap * list N) :=
+  match k with
+  | FNone => Ok (fs, [])
+  | FPlain f => Ok (fs, f)
+  | FSharedBad => Err E_SI
+  | FMaster si ref f =>
+      do d <- get_dimension ref;                    (* errors and panics propagate *)
+      Ok (fm_insert fs si (f, (d, pos)), f)
+  | FMember si own =>
+      match fm_get fs si with
+      | Some (f, (dims, master)) =>
+          if contains dims pos then
+            (* pos.0 as i64 - master.0 as i64: both are u32, no overflow *)
+            let off := ((Z.of_N (fst pos) - Z.of_N (fst master))%Z,
+                        (Z.of_N (snd pos) - Z.of_N (snd master))%Z) in
+            do v <- replace_cell_names f off; Ok (fs, v)
+          else Ok (fs, own)
+      | None => Ok (fs, own)
+      end
+  end.
+
+Definition fcell := ((N * N) * fkind)%type.
+Fixpoint run_cells (fs : fmap) (cells : list fcell) : outcome (list ((N * N) * list N)) :=
+  match cells with
+  | [] => Ok []
+  | (pos, k) :: t =>
+      do r <- cell_step fs pos k;
+      do rest <- run_cells (fst r) t;
+      Ok ((pos, snd r) :: rest)
+  end.
+
+(* worksheet_formula: every cell in document order, then `if !cell.val.is_empty()` *)
+Definition sheet_formulas (cells : list fcell) : outcome (list ((N * N) * list N)) :=
+  do vs <- run_cells [] cells;
+  Ok (filter (fun pv => nonempty (snd pv)) vs).
+End Model.
 
 (* ------------------------------------------------------------------ SPEC: token grammar *)
 (* A formula is a list of tokens.  An area is [TRef; TSym ':'; TRef]; a sheet-qualified
    reference is [TSheet ..; TRef ..]; a function call is [TFunc name; args…; TSym ')'] (the
-   opening parenthesis belongs to TFunc); multi-character operators are sequences of TSym. *)
+   opening parenthesis belongs to TFunc); multi-character operators are sequences of TSym;
+   a structured reference is [TName table; TBrack ..], an external one [TBrack "[1]"; TSheet ..]. *)
 Inductive token :=
 | TRef (cabs : bool) (col : N) (rabs : bool) (row : N)   (* 0-based column / row, $ flags *)
+| TColRange (a1 : bool) (c1 : N) (a2 : bool) (c2 : N)    (* whole columns  A:B  $A:$B *)
+| TRowRange (a1 : bool) (r1 : N) (a2 : bool) (r2 : N)    (* whole rows     1:3  $1:$3 *)
 | TSheet (quoted : bool) (name : list N)                 (* Sheet1!   'My sheet'!  *)
+| TSheetRange (n1 n2 : list N)                           (* Sheet1:Sheet3!  (unquoted 3-D prefix) *)
 | TFunc (name : list N)                                  (* SUM(  LOG10(  _xlfn.STDEV.S( *)
-| TName (name : list N)                                  (* defined name, TRUE, FALSE *)
-| TNum (ip : list N) (fp : option (list N)) (ex : option (bool * list N))
-                                                         (* 12  1.5  1E+20  2.5E-3 *)
+| TName (name : list N)                                  (* defined name, table name, TRUE, FALSE *)
+| TNum (ip : list N) (fp : option (list N)) (ex : option (option bool * list N))
+                                                         (* 12  1.5  1E+20  2.5E-3  1E5 *)
 | TStr (s : list N)                                      (* text with  doubled *)
+| TBrack (s : list N)                                    (* [..] with balanced brackets, verbatim *)
 | TSym (c : N)                                           (* operator or punctuation character *)
 | TErr (k : N).                                          (* #REF! … *)
 
@@ -165,79 +322,119 @@ Fixpoint double_ch (q : N) (s : list N) : list N :=
 
 Definition render_ref (ca : bool) (c : N) (ra : bool) (r : N) : list N :=
   a1_ref r c (negb ra) (negb ca).      (* Col26: [$]letters[$]digits *)
+Definition dollar (a : bool) : list N := if a then [ch_dollar] else [].
 
 Definition render (t : token) : list N :=
   match t with
   | TRef ca c ra r => render_ref ca c ra r
+  | TColRange a1 c1 a2 c2 => dollar a1 ++ letters c1 ++ [ch_colon] ++ dollar a2 ++ letters c2
+  | TRowRange a1 r1 a2 r2 => dollar a1 ++ dec (r1 + 1) ++ [ch_colon] ++ dollar a2 ++ dec (r2 + 1)
   | TSheet false n => n ++ [ch_bang]
   | TSheet true n => [ch_apos] ++ double_ch ch_apos n ++ [ch_apos; ch_bang]
+  | TSheetRange n1 n2 => n1 ++ [ch_colon] ++ n2 ++ [ch_bang]
   | TFunc n => n ++ [ch_lparen]
   | TName n => n
   | TNum ip fp ex =>
       ip ++ (match fp with Some f => ch_dot :: f | None => [] end)
          ++ (match ex with
-             | Some (neg, e) => ch_E :: (if neg then ch_minus else ch_plus) :: e
+             | Some (Some neg, e) => ch_E :: (if neg then ch_minus else ch_plus) :: e
+             | Some (None, e) => ch_E :: e
              | None => []
              end)
   | TStr s => [ch_dquote] ++ double_ch ch_dquote s ++ [ch_dquote]
+  | TBrack s => s
   | TSym c => [c]
   | TErr k => nth (N.to_nat k) error_texts []
   end.
 
 Definition render_all (ts : list token) : list N := concat (map render ts).
 
-(* translation by (drow, dcol): exactly the relative components of cell references move *)
+(* translation by (drow, dcol): exactly the relative components of references move *)
 Definition move (abs : bool) (x : N) (d : Z) : N :=
   if abs then x else Z.to_N (Z.of_N x + d).
 Definition translate (off : Z * Z) (t : token) : token :=
   match t with
   | TRef ca c ra r => TRef ca (move ca c (snd off)) ra (move ra r (fst off))
+  | TColRange a1 c1 a2 c2 => TColRange a1 (move a1 c1 (snd off)) a2 (move a2 c2 (snd off))
+  | TRowRange a1 r1 a2 r2 => TRowRange a1 (move a1 r1 (fst off)) a2 (move a2 r2 (fst off))
   | _ => t
   end.
 
+(* ------------------------------------------------------------------ SPEC: names that are cell names *)
+(* [n], read case-insensitively, is the A1 name of a cell of the sheet: one to three letters
+   giving a column <= XFD, then one to seven digits without a leading zero giving a row
+   <= 1048576.  Excel refuses such defined / table names, and quotes such sheet names. *)
+Definition is_cell_name (n : list N) : bool :=
+  let ls := fst (span is_alpha n) in
+  let ds := snd (span is_alpha n) in
+  nonempty ls && (length ls <=? 3)%nat &&
+  nonempty ds && forallb is_digit ds && (length ds <=? 7)%nat && negb (hd 0 ds =? ch_0) &&
+  (col1_of_letters (map to_upper ls) <=? MAX_COLUMNS) && (undec ds <=? MAX_ROWS).
+
 (* ------------------------------------------------------------------ SPEC: well-formedness *)
 Definition sym_chars : list N :=
-  [43;45;42;47;94;38;61;60;62;37;40;41;44;59;58;32;123;125].   (* + - * / ^ & = < > % ( ) , ; : space { } *)
-Definition name_char (c : N) : bool :=
-  is_alnum c || (c =? 95) || (c =? ch_dot) || (128 <=? c).       (* _ . and non-ASCII letters *)
-Definition name_start (c : N) : bool := is_alpha c || (c =? 95) || (128 <=? c).
+  [43;45;42;47;94;38;61;60;62;37;40;41;44;59;58;32;123;125;64].
+                             (* + - * / ^ & = < > % ( ) , ; : space { } @ *)
 Definition sheet_forbidden : list N := [58;92;47;63;42;91;93].    (* : \ / ? * [ ] *)
-Definition nonempty (l : list N) : bool := match l with [] => false | _ => true end.
 Definition digits_ok (l : list N) : bool := nonempty l && forallb is_digit l.
+
+(* [TBrack s]: s starts with '[' and its bracket depth returns to 0 exactly at its last char *)
+Fixpoint brack_span (l : list N) (depth : N) : bool :=
+  match l with
+  | [] => false
+  | x :: t =>
+      if (x =? ch_rbrack) && (depth =? 0) then false else
+      let d := if x =? ch_lbrack then depth + 1 else if x =? ch_rbrack then depth - 1 else depth in
+      if d =? 0 then is_nil t else brack_span t d
+  end.
+Definition brack_ok (s : list N) : bool :=
+  match s with c :: _ => (c =? ch_lbrack) && brack_span s 0 | [] => false end.
+
+Section Wf.
+(* "letter or digit" in names is the Unicode notion, i.e. the same oracle *)
+Variable is_alnum : N -> bool.
+(* characters of function names and unquoted sheet names; of defined names *)
+Definition uname_char (c : N) : bool := is_alnum c || (c =? ch_uscore) || (c =? ch_dot).
+Definition dname_char (c : N) : bool := uname_char c || (c =? ch_bslash) || (c =? ch_qmark).
+Definition word_char (c : N) : bool := dname_char c || (c =? ch_dollar).
 
 Definition tok_valid (t : token) : bool :=
   match t with
   | TRef _ c _ r => (c <? MAX_COLUMNS) && (r <? MAX_ROWS)
-  | TSheet false n => nonempty n && forallb name_char n
+  | TColRange _ c1 _ c2 => (c1 <? MAX_COLUMNS) && (c2 <? MAX_COLUMNS)
+  | TRowRange _ r1 _ r2 => (r1 <? MAX_ROWS) && (r2 <? MAX_ROWS)
+  | TSheet false n => nonempty n && forallb uname_char n
   | TSheet true n => nonempty n && forallb (fun c => negb (existsb (N.eqb c) sheet_forbidden)) n
-  | TFunc n => match n with c :: _ => name_start c && forallb name_char n | [] => false end
-  | TName n => match n with
-               | c :: _ => (name_start c || (c =? 92)) &&
-                           forallb (fun c => name_char c || (c =? 92) || (c =? 63)) n
-               | [] => false
-               end
+  | TSheetRange n1 n2 => nonempty n1 && forallb uname_char n1 && nonempty n2 && forallb uname_char n2
+  | TFunc n => nonempty n && forallb uname_char n
+  | TName n => nonempty n && forallb dname_char n && negb (is_cell_name n)
   | TNum ip fp ex =>
       digits_ok ip && (match fp with Some f => digits_ok f | None => true end)
       && (match ex with Some (_, e) => digits_ok e | None => true end)
   | TStr _ => true
+  | TBrack s => brack_ok s
   | TSym c => existsb (N.eqb c) sym_chars
   | TErr k => k <? 7
   end.
 
-(* adjacency: a token whose text ends with an ASCII letter or digit must be followed by a
-   token whose text starts with something else than a letter, a digit or a double quote
-   (in a real formula: an operator, a comma, a parenthesis, a colon, '!' …) *)
-Definition ends_alnum (u : list N) : bool :=
-  match rev u with c :: _ => is_alnum c | [] => false end.
+(* adjacency: a token whose text ends with a word character (letter, digit, _ . $ \ ?) must be
+   followed by a token whose text starts with something else, and not with '(' or '!' (which
+   would make it a function or sheet name: those are TFunc / TSheet) *)
+Definition ends_word (u : list N) : bool :=
+  match rev u with c :: _ => word_char c | [] => false end.
 Definition starts_sep (u : list N) : bool :=
-  match u with c :: _ => negb (is_alnum c) && negb (c =? ch_dquote) | [] => false end.
+  match u with
+  | c :: _ => negb (word_char c) && negb (c =? ch_lparen) && negb (c =? ch_bang)
+  | [] => false
+  end.
 Fixpoint adjacent_ok (ts : list token) : bool :=
   match ts with
   | a :: ((b :: _) as rest) =>
-      (if ends_alnum (render a) then starts_sep (render b) else true) && adjacent_ok rest
+      (if ends_word (render a) then starts_sep (render b) else true) && adjacent_ok rest
   | _ => true
   end.
 Definition wf_formula (ts : list token) : bool := forallb tok_valid ts && adjacent_ok ts.
+End Wf.
 
 (* every reference lies on the sheet before and after translation, and the offset is the
    difference of two positions of the sheet *)
@@ -249,66 +446,39 @@ Definition comp_in_range (abs : bool) (x : N) (d : Z) (lim : N) : bool :=
 Definition tok_in_range (off : Z * Z) (t : token) : bool :=
   match t with
   | TRef ca c ra r => comp_in_range ca c (snd off) MAX_COLUMNS && comp_in_range ra r (fst off) MAX_ROWS
+  | TColRange a1 c1 a2 c2 =>
+      comp_in_range a1 c1 (snd off) MAX_COLUMNS && comp_in_range a2 c2 (snd off) MAX_COLUMNS
+  | TRowRange a1 r1 a2 r2 =>
+      comp_in_range a1 r1 (fst off) MAX_ROWS && comp_in_range a2 r2 (fst off) MAX_ROWS
   | _ => true
   end.
 Definition in_rangeb (ts : list token) (off : Z * Z) : bool :=
   off_ok off && forallb (tok_in_range off) ts.
 Definition in_range (ts : list token) (off : Z * Z) : Prop := in_rangeb ts off = true.
 
-(* ------------------------------------------------------------------ KNOWN classes (F22) *)
-Definition CL_MIXED : N := 1.       (* $A1 / A$1 *)
-Definition CL_LOOKALIKE : N := 2.   (* LOG10(  'My Q1'!  my_A1 : part of a non-reference is rewritten *)
-Definition CL_NONASCII : N := 3.    (* `c as u8` truncation *)
-Definition CL_QUOTE : N := 4.       (* a double quote inside a quoted sheet name flips the string mode *)
-Definition CL_OVERFLOW : N := 5.    (* Revenue2024!  1000000000 : u32 overflow in get_row_column *)
-
-(* The part of the scanner state that does not depend on the offset: pending cell candidate,
-   is_cell_row, in_quote. *)
-Definition pstate := (list N * bool * bool)%type.
-Definition p_init : pstate := ([], false, false).
-Definition padv (st : pstate) (c : N) : pstate :=
-  let '(cell, icr, inq) := st in
-  let inq' := if c =? ch_dquote then negb inq else inq in
-  if inq' then (cell, icr, inq')
-  else if is_alpha c then (if icr then ([c], false, inq') else (cell ++ [c], icr, inq'))
-  else if is_digit c then (cell ++ [c], true, inq')
-  else ([], false, inq').
-
-(* a candidate handed to offset_cell_name: harmless when it is rejected for every offset of
-   the sheet *)
-Definition LOOKALIKE_LIMIT : N := 32767.   (* MAX_COLUMNS + (MAX_COLUMNS - 1): no offset brings it back *)
-Definition cell_class (cell : list N) : option N :=
-  match get_row_column cell with
-  | Ok rc => if snd rc <? LOOKALIKE_LIMIT then Some CL_LOOKALIKE else None
-  | Err _ => None
-  | Panic => Some CL_OVERFLOW
-  | OutOfFuel => Some CL_OVERFLOW
+(* ------------------------------------------------------------------ behaviour outside in_range *)
+(* NOT part of the property (no translated reference exists there): what the code documents —
+   "a reference that would leave the sheet is left unchanged" — stated so that the theorem
+   translate_total covers every offset of the sheet.  A reference is moved as a whole or not
+   at all. *)
+Definition translate_clip (off : Z * Z) (t : token) : token :=
+  match t with
+  | TRef ca c ra r => if tok_in_range off t then translate off t else t
+  | _ => t
   end.
 
-Definition char_class (st : pstate) (c : N) : option N :=
-  if 128 <=? c then Some CL_NONASCII else
-  let '(cell, icr, inq) := st in
-  let inq' := if c =? ch_dquote then negb inq else inq in
-  if inq' then (if (c =? ch_dquote) && nonempty cell then Some CL_QUOTE else None)
-  else if is_alnum c then None
-  else cell_class cell.
-
-(* class of a text that must come out unchanged: first problem met, in text order *)
-Fixpoint text_class_from (u : list N) (st : pstate) : option N :=
-  match u with
-  | [] => let '(cell, _, inq) := st in if inq then Some CL_QUOTE else cell_class cell
-  | c :: t => match char_class st c with
-              | Some k => Some k
-              | None => text_class_from t (padv st c)
-              end
-  end.
-Definition text_class (u : list N) : option N := text_class_from u p_init.
+(* ------------------------------------------------------------------ KNOWN classes *)
+(* The classes of the previous tree (F22-mixed, -lookalike, -nonascii, -quote, -overflow, -block,
+   -si-order, -edge; class ids 1..7) are gone.  What remains: *)
+Definition CL_WHOLE : N := 8.     (* A:A, 1:3 with a relative component: never moved by the code *)
+Definition CL_SHEET3D : N := 9.   (* Q1:Q3! unquoted 3-D prefix: the first name is moved like a cell *)
 
 Definition known_token (t : token) : option N :=
   match t with
-  | TRef false _ false _ => None
-  | TRef ca _ ra _ => if xorb ca ra then Some CL_MIXED else text_class (render t)
-  | _ => text_class (render t)
+  | TColRange a1 _ a2 _ => if a1 && a2 then None else Some CL_WHOLE
+  | TRowRange a1 _ a2 _ => if a1 && a2 then None else Some CL_WHOLE
+  | TSheetRange n1 _ => if is_cell_name n1 then Some CL_SHEET3D else None
+  | _ => None
   end.
 Fixpoint known_C15 (ts : list token) : option N :=
   match ts with
@@ -316,107 +486,25 @@ Fixpoint known_C15 (ts : list token) : option N :=
   | t :: r => match known_token t with Some k => Some k | None => known_C15 r end
   end.
 
-(* mixed references are translated correctly when the column offset is 0 (vertical groups):
-   the sharper class used by the second theorem *)
-Definition known_token_v (t : token) : option N :=
+(* sharper, per offset: a whole-column range is harmless when the column offset is 0 (vertical
+   groups), a whole-row range when the row offset is 0 *)
+Definition known_token_at (off : Z * Z) (t : token) : option N :=
   match t with
-  | TRef true _ false _ => None       (* $A1 : the whole name moves, by (dr, 0) *)
-  | TRef false _ true _ => text_class (render t)   (* A$1 : nothing moves *)
+  | TColRange a1 _ a2 _ => if (a1 && a2) || (snd off =? 0)%Z then None else Some CL_WHOLE
+  | TRowRange a1 _ a2 _ => if (a1 && a2) || (fst off =? 0)%Z then None else Some CL_WHOLE
   | _ => known_token t
   end.
-Fixpoint known_C15_v (ts : list token) : option N :=
+Fixpoint known_at (off : Z * Z) (ts : list token) : option N :=
   match ts with
   | [] => None
-  | t :: r => match known_token_v t with Some k => Some k | None => known_C15_v r end
+  | t :: r => match known_token_at off t with Some k => Some k | None => known_at off r end
   end.
-
-(* ------------------------------------------------------------------ MODEL: next_formula (shared part) *)
-Definition omap := list ((N * N) * (Z * Z)).       (* HashMap<(u32,u32),(i64,i64)> *)
-Definition pos_eqb (a b : N * N) : bool := (fst a =? fst b) && (snd a =? snd b).
-Fixpoint omap_get (m : omap) (p : N * N) : option (Z * Z) :=
-  match m with
-  | [] => None
-  | (k, v) :: t => if pos_eqb k p then Some v else omap_get t p
-  end.
-Definition iota (n : N) : list N := map N.of_nat (seq 0 (N.to_nat n)).
-
-(*  if reference.start.0 != reference.end.0 { for i in 0..=(end.0 - start.0) { insert((start.0 + i, start.1),
-        (start.0 as i64 - pos.0 as i64 + i as i64, 0)) } }
-    else if reference.start.1 != reference.end.1 { for i in 0..=(end.1 - start.1) { insert((start.0, start.1 + i),
-        (0, start.1 as i64 - pos.1 as i64 + i as i64)) } }
-   The keys of one loop are distinct, so insertion order does not matter for lookups. *)
-Definition build_offset_map (d : (N * N) * (N * N)) (pos : N * N) : omap :=
-  let '(s, e) := d in
-  if negb (fst s =? fst e) then
-    map (fun i => ((fst s + i, snd s), ((Z.of_N (fst s) - Z.of_N (fst pos) + Z.of_N i)%Z, 0%Z)))
-        (iota (fst e - fst s + 1))
-  else if negb (snd s =? snd e) then
-    map (fun i => ((fst s, snd s + i), (0%Z, (Z.of_N (snd s) - Z.of_N (snd pos) + Z.of_N i)%Z)))
-        (iota (snd e - snd s + 1))
-  else [].
-
-Definition group_entry := (list N * omap)%type.
-(*  while self.formulas.len() < shared_index { push(None) }  push(Some((f, offset_map))) *)
-Definition push_group (fs : list (option group_entry)) (si : N) (g : group_entry)
-  : list (option group_entry) :=
-  fs ++ repeat None (N.to_nat si - length fs) ++ [Some g].
-
-(* what the <f> element of a cell looks like *)
-Inductive fkind :=
-| FNone                                            (* no <f> *)
-| FPlain (f : list N)                              (* <f>text</f> *)
-| FMaster (si : N) (ref : list N) (f : list N)     (* <f t=shared ref=.. si=..>text</f> *)
-| FMember (si : N) (own : list N)                  (* <f t=shared si=..>own</f>, own usually empty *)
-| FSharedBad.                                      (* t=shared without a numeric si *)
-
-(* the String reported for a cell: text as scalar values, or the UTF-8 bytes produced by
-   replace_cell_names *)
-Inductive fval := VText (s : list N) | VBytes (b : list N).
-Definition fval_is_empty (v : fval) : bool :=
-  match v with VText [] => true | VBytes [] => true | _ => false end.
-
-Definition E_SI : N := 11.
-Definition cell_step (fs : list (option group_entry)) (pos : N * N) (k : fkind)
-  : outcome (list (option group_entry) * fval) :=
-  match k with
-  | FNone => Ok (fs, VText [])
-  | FPlain f => Ok (fs, VText f)
-  | FSharedBad => Err E_SI
-  | FMaster si ref f =>
-      do d <- get_dimension ref;
-      Ok (push_group fs si (f, build_offset_map d pos), VText f)
-  | FMember si own =>
-      match nth_error fs (N.to_nat si) with
-      | Some (Some (f, m)) =>
-          match omap_get m pos with
-          | Some off => do v <- replace_cell_names f off; Ok (fs, VBytes v)
-          | None => Ok (fs, VText own)
-          end
-      | _ => Ok (fs, VText own)
-      end
-  end.
-
-Definition fcell := ((N * N) * fkind)%type.
-Fixpoint run_cells (fs : list (option group_entry)) (cells : list fcell)
-  : outcome (list ((N * N) * fval)) :=
-  match cells with
-  | [] => Ok []
-  | (pos, k) :: t =>
-      do r <- cell_step fs pos k;
-      do rest <- run_cells (fst r) t;
-      Ok ((pos, snd r) :: rest)
-  end.
-
-(* worksheet_formula: every cell in document order, then `if !cell.val.is_empty()` *)
-Definition sheet_formulas (cells : list fcell) : outcome (list ((N * N) * fval)) :=
-  do vs <- run_cells [] cells;
-  Ok (filter (fun pv => negb (fval_is_empty (snd pv))) vs).
 
 (* ------------------------------------------------------------------ SPEC: groups *)
 (* a shared-formula group as the file declares it *)
 Record group := mkGroup {
   g_si : N;
-  g_master : N * N;                 (* position of the cell that carries the text *)
+  g_master : N * N;                 (* position of the cell that carries the text (anywhere) *)
   g_start : N * N; g_end : N * N;   (* the declared ref, start <= end componentwise *)
   g_tokens : list token
 }.
@@ -429,15 +517,6 @@ Definition member_formula (g : group) (p : N * N) : list N :=
   render_all (map (translate (member_offset g p)) (g_tokens g)).
 Definition ref_text (s e : N * N) : list N :=
   a1_name (fst s) (snd s) ++ [ch_colon] ++ a1_name (fst e) (snd e).
-
-Definition CL_BLOCK : N := 6.       (* 2-D ref: only the first column receives offsets *)
-Definition CL_SI_ORDER : N := 7.    (* shared indices not strictly increasing in document order *)
-(* the member at p is one the offset map does not serve correctly although the declared ref
-   contains it: the ref spans several rows and p (or the master) is not in its first column *)
-Definition known_member (g : group) (p : N * N) : option N :=
-  if negb (fst (g_start g) =? fst (g_end g)) &&
-     (negb (snd p =? snd (g_start g)) || negb (snd (g_master g) =? snd (g_start g)))
-  then Some CL_BLOCK else None.
 
 (* a sheet as the property sees it: cells in document order *)
 Inductive scell :=
@@ -455,61 +534,58 @@ Definition encode_cell (c : scell) : fcell :=
   | SMember p si own => (p, FMember si own)
   end.
 
+(* the group a shared index denotes at some point of the document: the latest master with that
+   index seen so far, whatever the order of the indices *)
 Definition find_group (seen : list group) (si : N) : option group :=
   find (fun g => g_si g =? si) seen.
 Definition seen_after (seen : list group) (c : scell) : list group :=
   match c with SMaster g => g :: seen | _ => seen end.
 
 (* SPEC: the formula the property demands for each cell.  A member inside the declared ref of
-   the group with its shared index gets the master formula translated by its own offset;
-   every other cell keeps its own text. *)
-Definition spec_value (seen : list group) (c : scell) : fval :=
+   the group with its shared index gets the master formula translated by its own offset (in one
+   or two dimensions); every other cell keeps its own text. *)
+Definition spec_value (seen : list group) (c : scell) : list N :=
   match c with
-  | SNone _ => VText []
-  | SPlain _ f => VText f
-  | SMaster g => VText (render_all (g_tokens g))
+  | SNone _ => []
+  | SPlain _ f => f
+  | SMaster g => render_all (g_tokens g)
   | SMember p si own =>
       match find_group seen si with
-      | Some g => if in_box (g_start g) (g_end g) p then VBytes (member_formula g p) else VText own
-      | None => VText own
+      | Some g => if in_box (g_start g) (g_end g) p then member_formula g p else own
+      | None => own
       end
   end.
-Fixpoint spec_cells (seen : list group) (cs : list scell) : list ((N * N) * fval) :=
+Fixpoint spec_cells (seen : list group) (cs : list scell) : list ((N * N) * list N) :=
   match cs with
   | [] => []
   | c :: t => (fst (encode_cell c), spec_value seen c) :: spec_cells (seen_after seen c) t
   end.
 
-(* which class list applies at an offset: mixed references are fine when the column offset is 0 *)
-Definition known_at (ts : list token) (off : Z * Z) : option N :=
-  if (snd off =? 0)%Z then known_C15_v ts else known_C15 ts.
-
+Section SheetOk.
+Variable is_alnum : N -> bool.
 Definition group_okb (g : group) : bool :=
   (fst (g_start g) <=? fst (g_end g)) && (snd (g_start g) <=? snd (g_end g)) &&
   (fst (g_end g) <? MAX_ROWS) && (snd (g_end g) <? MAX_COLUMNS) &&
-  in_box (g_start g) (g_end g) (g_master g).
+  (fst (g_master g) <? MAX_ROWS) && (snd (g_master g) <? MAX_COLUMNS).
 Definition member_okb (g : group) (p : N * N) : bool :=
-  negb (pos_eqb p (g_master g)) &&
-  (match known_member g p with None => true | Some _ => false end) &&
-  wf_formula (g_tokens g) && in_rangeb (g_tokens g) (member_offset g p) &&
-  (match known_at (g_tokens g) (member_offset g p) with None => true | Some _ => false end).
+  wf_formula is_alnum (g_tokens g) && in_rangeb (g_tokens g) (member_offset g p) &&
+  (match known_at (member_offset g p) (g_tokens g) with None => true | Some _ => false end).
 
-(* the sheets covered by the group theorem: shared indices strictly increasing in document
-   order, well-formed groups, and every member inside a declared ref is outside the known
-   classes (2-D position, token classes at its offset) *)
-Fixpoint sheet_okb (seen : list group) (last : option N) (cs : list scell) : bool :=
+(* the sheets covered by the group theorem: well-formed groups (any shape, any master
+   position, shared indices in any order, repeated or not), and every member inside a declared
+   ref has a formula of the grammar that stays on the sheet, outside the known classes *)
+Fixpoint sheet_okb (seen : list group) (cs : list scell) : bool :=
   match cs with
   | [] => true
   | c :: t =>
       (match c with
-       | SMaster g => group_okb g && (match last with Some l => l <? g_si g | None => true end)
+       | SMaster g => group_okb g
        | SMember p si _ =>
            match find_group seen si with
            | Some g => if in_box (g_start g) (g_end g) p then member_okb g p else true
            | None => true
            end
        | _ => true
-       end) &&
-      sheet_okb (seen_after seen c)
-                (match c with SMaster g => Some (g_si g) | _ => last end) t
+       end) && sheet_okb (seen_after seen c) t
   end.
+End SheetOk.
